@@ -14,16 +14,48 @@ from .core import SStr, SInt, SBytes, EngineError, Atom, CW
 _MISSING = object()
 
 
+class IpKey:
+    """container key for an ipaddress address object whose integer value is symbolic (equality = same class and same value)"""
+
+    def __init__(self, obj):
+        self.obj, self.cls, self.ip = obj, type(obj), obj._ip
+
+
 def norm(x):
-    """concrete SStr -> real str"""
+    """concrete SStr -> real str; address object with a symbolic value -> IpKey"""
     if isinstance(x, SStr) and x.concrete():
         return x.plain()
+    if not isinstance(x, (SStr, SInt, IpKey, str, int)) and isinstance(getattr(x, "_ip", None), SInt):
+        return IpKey(x)
     return x
+
+
+def unkey(k):
+    return k.obj if isinstance(k, IpKey) else k
+
+
+def _conc_candidates(conc, key):
+    """concrete keys that a symbolic non-string key could equal"""
+    if isinstance(key, SInt):
+        return [k for k in conc if isinstance(k, int) and not isinstance(k, bool)]
+    if isinstance(key, IpKey):
+        return [k for k in conc if type(k) is key.cls]
+    return []
 
 
 def key_eq(a, b):
     """python bool (forking): two container keys are equal"""
     a, b = norm(a), norm(b)
+    if isinstance(a, IpKey) or isinstance(b, IpKey):
+        ca = a.cls if isinstance(a, IpKey) else type(a)
+        cb = b.cls if isinstance(b, IpKey) else type(b)
+        if ca is not cb:
+            return False
+        va = a.ip if isinstance(a, IpKey) else getattr(a, "_ip", None)
+        vb = b.ip if isinstance(b, IpKey) else getattr(b, "_ip", None)
+        if va is None or vb is None:
+            return False
+        return bool(va == vb)
     if isinstance(a, SStr) or isinstance(b, SStr):
         if not isinstance(a, (str, SStr)) or not isinstance(b, (str, SStr)):
             return False
@@ -37,7 +69,7 @@ def key_eq(a, b):
 
 
 def _symbolic_key(k):
-    return isinstance(k, (SStr, SInt))
+    return isinstance(k, (SStr, SInt, IpKey))
 
 
 class SymDict:
@@ -71,6 +103,9 @@ class SymDict:
                     if core.EX.branch(key.eq_expr(k)):
                         return ("c", k)
                 return ("c", cands[-1])
+        for k in _conc_candidates(self.conc, key):
+            if key_eq(k, key):
+                return ("c", k)
         for ent in self.sym:
             if key_eq(ent[0], key):
                 return ("s", ent)
@@ -133,10 +168,10 @@ class SymDict:
         return len(self) > 0
 
     def keys(self):
-        return list(self.order)
+        return [unkey(k) for k in self.order]
 
     def __iter__(self):
-        return iter(list(self.order))
+        return iter([unkey(k) for k in self.order])
 
     def items(self):
         out = []
@@ -144,7 +179,7 @@ class SymDict:
             if _symbolic_key(k):
                 for ent in self.sym:
                     if ent[0] is k:
-                        out.append((k, ent[1]))
+                        out.append((unkey(k), ent[1]))
                         break
             else:
                 out.append((k, self.conc[k]))
@@ -199,6 +234,9 @@ class SymSet:
             cands = self._index().get(len(x.cs), [])
             if cands and core.EX.branch(z3.Or(*[x.eq_expr(w) for w in cands])):
                 return True
+        for k in _conc_candidates(self.conc, x):
+            if key_eq(k, x):
+                return True
         for y in self.sym:
             if key_eq(y, x):
                 return True
@@ -221,7 +259,81 @@ class SymSet:
                 self.add(x)
 
     def discard(self, x):
-        raise EngineError("set.discard")
+        x = norm(x)
+        if _symbolic_key(x) or self.sym:
+            raise EngineError("set.discard with symbolic elements")
+        self.conc.discard(x)
+        self._bylen = None
+
+    def remove(self, x):
+        if x not in self:
+            raise KeyError(x)
+        self.discard(x)
+
+    def clear(self):
+        self.conc = set()
+        self.sym = []
+        self._bylen = None
+
+    def copy(self):
+        c = SymSet()
+        c.conc = set(self.conc)
+        c.sym = list(self.sym)
+        return c
+
+    @staticmethod
+    def _elements_of(o):
+        return list(o.elements() if getattr(o, "is_symset", False) else o)
+
+    def union(self, *others):
+        c = self.copy()
+        c.update(*others)
+        return c
+
+    __or__ = union
+
+    def __ior__(self, other):
+        self.update(other)
+        return self
+
+    def intersection(self, *others):
+        c = SymSet()
+        for x in self.elements():
+            if all((x in o) if getattr(o, "is_symset", False) else (x in SymSet(o)) for o in others):
+                c.add(x)
+        return c
+
+    __and__ = intersection
+
+    def difference(self, *others):
+        c = SymSet()
+        for x in self.elements():
+            if not any((x in o) if getattr(o, "is_symset", False) else (x in SymSet(o)) for o in others):
+                c.add(x)
+        return c
+
+    __sub__ = difference
+
+    def issubset(self, other):
+        o = other if getattr(other, "is_symset", False) else SymSet(other)
+        return all(x in o for x in self.elements())
+
+    __le__ = issubset
+
+    def issuperset(self, other):
+        return all(x in self for x in SymSet._elements_of(other))
+
+    __ge__ = issuperset
+
+    def isdisjoint(self, other):
+        return not any(x in self for x in SymSet._elements_of(other))
+
+    def __eq__(self, other):
+        if not (getattr(other, "is_symset", False) or isinstance(other, (set, frozenset))):
+            return NotImplemented
+        return self.issubset(other) and self.issuperset(other)
+
+    __hash__ = None
 
     def __len__(self):
         return len(self.conc) + len(self.sym)
@@ -235,7 +347,7 @@ class SymSet:
             c = sorted(self.conc)
         except TypeError:
             c = list(self.conc)
-        return c + list(self.sym)
+        return c + [unkey(k) for k in self.sym]
 
     def __iter__(self):
         return iter(iter_any(self))
